@@ -136,6 +136,13 @@ def run(ctx, prog):
     ctx.inst('C20.R2', dr.short, 'drain_for_flush drains the whole map', bool(dcalls), 'drain calls: %d' % len(dcalls))
     ef = ctx.body('C20.R2', 'TieredEngine::emergency_flush_hot_tier')
     ctx.inst('C20.R2', ef.short, 'emergency flush = drain_for_flush', bool(ef.calls_to('HotTier::drain_for_flush')), '')
+    # …unconditionally: TieredEngine::insert treats Ok from the emergency flush as "the tier was emptied" and mirrors the new document; an Ok return that did
+    # not pass the drain (e.g. behind the soft-threshold test needs_flush()) lets the tier grow past the hard limit whenever hard < soft
+    dblocks = set(c.bb for c in ef.calls_to('HotTier::drain_for_flush'))
+    leak = flow.ok_return_reachable(ef, [0], avoid_blocks=dblocks)
+    ctx.inst('C20.R2', ef.short, 'every Ok return of the emergency flush is behind the drain', bool(dblocks) and not leak,
+             'an Ok return is reachable without calling HotTier::drain_for_flush — the caller takes Ok as "drained" and grows the tier at the hard limit' if leak
+             else 'no Ok return avoids the drain (%d drain call(s))' % len(dblocks))
 
     # ------------------------------------------------------------------ R3
     ctx.rule('C20.R3', 'lock-step of map and LRU index in both caches: a growing insert is followed on every path by lru.insert_new, '
